@@ -290,7 +290,17 @@ func (k *kptrace) kill(pid int, sig syscall.Signal) error {
 		}
 		return nil
 	}
-	sym.Assert(false, "kill must target the run's own process group with SIGKILL")
+	if pid == k.pgid && sig == syscall.SIGKILL {
+		// kill of the run's own main process (it may not own a group yet while it launches)
+		for _, p := range k.procs {
+			if p.pid == pid && p.exists && p.alive {
+				p.dying, p.stopped = true, false
+				return nil
+			}
+		}
+		return syscall.ESRCH
+	}
+	sym.Assert(false, "kill must target the run's own process or process group with SIGKILL")
 	return nil
 }
 
